@@ -42,28 +42,34 @@ import (
 )
 
 func init() {
-	addKMount("C01", "cluster", func(tier string) int {
+	addKMount("C01", func(tier string) int {
 		if tier == "thorough" {
 			return 120
 		}
 		return 8
-	})
-	addKMount("C02", "rollback", func(tier string) int {
+	}, func(c *core.Case, k int) { runKMount(c, "cluster", k) })
+	addKMount("C02", func(tier string) int {
 		if tier == "thorough" {
 			return 160
 		}
 		return 10
-	})
-	addKMount("C03", "wal", func(tier string) int {
+	}, func(c *core.Case, k int) { runKMount(c, "rollback", k) })
+	addKMount("C03", func(tier string) int {
 		if tier == "thorough" {
 			return 160
 		}
 		return 10
-	})
+	}, func(c *core.Case, k int) { runKMount(c, "wal", k) })
+	addKMount("C07", func(tier string) int {
+		if tier == "thorough" {
+			return 96
+		}
+		return 8
+	}, runKMountC07)
 }
 
 // addKMount appends n(tier) driver-B cases to a registered check.
-func addKMount(id, variant string, n func(tier string) int) {
+func addKMount(id string, n func(tier string) int, run func(c *core.Case, k int)) {
 	chk := Registry[id]
 	if chk == nil {
 		return
@@ -72,7 +78,7 @@ func addKMount(id, variant string, n func(tier string) int) {
 	chk.NumCases = func(tier string) int { return baseN(tier) + n(tier) }
 	chk.Run = func(c *core.Case) {
 		if b := baseN(c.Tier); c.Index >= b {
-			runKMount(c, variant, c.Index-b)
+			run(c, c.Index-b)
 			return
 		}
 		baseRun(c)
@@ -232,12 +238,14 @@ func (s *localSQL) contentHash() (string, error) {
 // ---- SQL child process -------------------------------------------------------
 
 type sqlReq struct {
-	Op     string   `json:"op"` // open | exec | query1 | hash | close
+	Op     string   `json:"op"` // open | exec | query1 | hash | close | unlink | truncate | pwrite | create
 	H      int      `json:"h,omitempty"`
 	Path   string   `json:"path,omitempty"`
 	RO     bool     `json:"ro,omitempty"`
 	Params []string `json:"params,omitempty"`
 	Q      string   `json:"q,omitempty"`
+	Size   int64    `json:"size,omitempty"` // truncate size / pwrite offset
+	Data   []byte   `json:"data,omitempty"`
 }
 
 type sqlResp struct {
@@ -283,6 +291,32 @@ func SQLChild() int {
 			if c != nil {
 				c.close()
 				delete(conns, req.H)
+			}
+		case "unlink":
+			if err := os.Remove(req.Path); err != nil {
+				resp.Err = err.Error()
+			}
+		case "truncate":
+			if err := os.Truncate(req.Path, req.Size); err != nil {
+				resp.Err = err.Error()
+			}
+		case "pwrite":
+			f, err := os.OpenFile(req.Path, os.O_WRONLY, 0)
+			if err == nil {
+				_, err = f.WriteAt(req.Data, req.Size)
+				if cerr := f.Close(); err == nil {
+					err = cerr
+				}
+			}
+			if err != nil {
+				resp.Err = err.Error()
+			}
+		case "create":
+			f, err := os.OpenFile(req.Path, os.O_RDWR|os.O_CREATE|os.O_EXCL, 0o644)
+			if err != nil {
+				resp.Err = err.Error()
+			} else {
+				_ = f.Close()
 			}
 		case "exec", "query1", "hash":
 			if c == nil {
@@ -904,4 +938,283 @@ func runKMount(c *core.Case, variant string, k int) {
 	if k < 2 {
 		c.Sample(detail(map[string]any{"final_pos": chain.pos.String(), "ltx_files": len(chain.files)}))
 	}
+}
+
+// runKMountC07: a replica mounted through the kernel; real SQLite and plain
+// file system calls issued by an application process try to change the
+// database there. Everything must be refused or be a no-op: image, position and
+// log stay what they were, and the replica goes on following the primary.
+// Then the primary loses its lease in the middle of a real SQLite transaction.
+func runKMountC07(c *core.Case, k int) {
+	if ok, why := kmountAvailable(); !ok {
+		c.Count("kmount_unavailable", 1)
+		if k == 0 {
+			c.Sample(map[string]any{"kmount": "unavailable", "why": why})
+		}
+		return
+	}
+	c.Count("kmount_cases", 1)
+	mode := []string{"delete", "wal", "truncate", "wal", "persist", "wal"}[k%6]
+	ps := []int{1024, 4096, 512}[c.Rng.IntN(3)]
+	cl, err := cluster.New(c.Dir, []cluster.NodeOpts{{Candidate: true, KernelMount: true}, {KernelMount: true}})
+	if err != nil {
+		c.Inconclusive(err.Error())
+		return
+	}
+	defer cl.Close()
+	if err := cl.Start(0); err != nil || cl.WaitPrimary(0, 10*time.Second) == nil {
+		c.Inconclusive(fmt.Sprintf("primary start: %v", err))
+		return
+	}
+	if err := cl.Start(1); err != nil || !cl.WaitConnected(1, 10*time.Second) {
+		c.Inconclusive(fmt.Sprintf("replica start: %v", err))
+		return
+	}
+	P, R := cl.Nodes[0], cl.Nodes[1]
+	var hist []string
+	detail := func(extra map[string]any) map[string]any {
+		d := map[string]any{"driver": "B (kernel mount + real SQLite)", "journal_mode": mode, "page_size": ps, "ops": hist}
+		for k, v := range extra {
+			d[k] = v
+		}
+		return d
+	}
+	proc, err := startSQLProc()
+	if err != nil {
+		c.Inconclusive("SQL child: " + err.Error())
+		return
+	}
+	defer proc.stop()
+	w, err := proc.open(filepath.Join(P.MountDir(), "db"), false)
+	if err != nil {
+		c.Violate("C07/kmount/open", err.Error(), detail(nil))
+		return
+	}
+	for _, q := range []string{fmt.Sprintf("PRAGMA page_size=%d", ps), "PRAGMA journal_mode=" + mode, "CREATE TABLE t0(id INTEGER PRIMARY KEY, k INTEGER, v BLOB)"} {
+		if _, err := w.queryStringOrExec(q); err != nil {
+			c.Violate("C07/kmount/setup", q+": "+err.Error(), detail(nil))
+			return
+		}
+	}
+	for i := 1; i <= 4+c.Rng.IntN(4); i++ {
+		if err := w.exec(fmt.Sprintf("INSERT INTO t0 VALUES(%d,%d,randomblob(%d))", i, i, 100+c.Rng.IntN(5000))); err != nil {
+			c.Violate("C07/kmount/setup", err.Error(), detail(nil))
+			return
+		}
+	}
+	if ok, _, timedOut := cl.WaitConverged(P, R, []string{"db"}, 8, 30*time.Second); !ok {
+		if timedOut {
+			c.Inconclusive("replica convergence watchdog")
+		} else {
+			c.Violate("C07/kmount/setup", "replica did not converge", detail(nil))
+		}
+		return
+	}
+	want, err := w.contentHash()
+	if err != nil {
+		c.Violate("C07/kmount/setup", err.Error(), detail(nil))
+		return
+	}
+	rdb := filepath.Join(R.MountDir(), "db")
+	before := c07Snapshot(R.Node, "db")
+	type op struct {
+		name string
+		run  func() error
+		must bool // must return an error
+	}
+	var rconn *sqlDB
+	sqlOp := func(q string, must bool) op {
+		return op{"sql: " + q, func() error {
+			if rconn == nil {
+				var err error
+				if rconn, err = proc.open(rdb, false); err != nil {
+					return err
+				}
+			}
+			_, err := rconn.queryStringOrExec(q)
+			return err
+		}, must}
+	}
+	ops := []op{
+		sqlOp("INSERT INTO t0 VALUES(1000,1,randomblob(3000))", true),
+		sqlOp("UPDATE t0 SET k=k+1", true),
+		sqlOp("DELETE FROM t0", true),
+		sqlOp("CREATE TABLE t9(a)", true),
+		sqlOp("VACUUM", true),
+		sqlOp("PRAGMA journal_mode=delete", false),
+		sqlOp("PRAGMA journal_mode=wal", false),
+		sqlOp("PRAGMA wal_checkpoint(TRUNCATE)", false),
+		// inside an explicit transaction a statement may succeed in SQLite's page
+		// cache; some statement up to and including COMMIT must fail
+		{"sql: BEGIN IMMEDIATE; INSERT; COMMIT", func() error {
+			var first error
+			for _, q := range []string{"BEGIN IMMEDIATE", "INSERT INTO t0 VALUES(1001,1,zeroblob(10))", "COMMIT"} {
+				if err := sqlOp(q, false).run(); err != nil && first == nil {
+					first = fmt.Errorf("%s: %w", q, err)
+				}
+			}
+			_ = sqlOp("ROLLBACK", false).run()
+			return first
+		}, true},
+		{"sql: BEGIN; INSERT; ROLLBACK", func() error {
+			for _, q := range []string{"BEGIN", "INSERT INTO t0 VALUES(1002,1,zeroblob(10))", "ROLLBACK"} {
+				_ = sqlOp(q, false).run()
+			}
+			return nil
+		}, false},
+		{"truncate db to 0", func() error { _, err := proc.call(sqlReq{Op: "truncate", Path: rdb, Size: 0}); return err }, true},
+		{"pwrite db page 2", func() error {
+			_, err := proc.call(sqlReq{Op: "pwrite", Path: rdb, Size: int64(ps), Data: make([]byte, ps)})
+			return err
+		}, true},
+		{"create db-journal", func() error { _, err := proc.call(sqlReq{Op: "create", Path: rdb + "-journal"}); return err }, true},
+		{"unlink db", func() error { _, err := proc.call(sqlReq{Op: "unlink", Path: rdb}); return err }, true},
+		{"unlink db-wal", func() error {
+			// never under an open connection: SQLite forbids removing the log
+			// beneath a live connection (LiteFS then stops at that connection's
+			// next write attempt because the log it must inspect is gone)
+			if rconn != nil {
+				rconn.close()
+				rconn = nil
+			}
+			_, err := proc.call(sqlReq{Op: "unlink", Path: rdb + "-wal"})
+			return err
+		}, false},
+		// a new, empty database may be created on a replica (it is not a
+		// replicated database); it must stay unpublished
+		{"create newdb", func() error {
+			_, err := proc.call(sqlReq{Op: "create", Path: filepath.Join(R.MountDir(), "newdb")})
+			if p := mon.PosOf(R.Node, "newdb"); p.TXID != 0 {
+				return nil
+			}
+			if err == nil {
+				err = errors.New("(created, unpublished)")
+			}
+			return err
+		}, true},
+	}
+	c.Rng.Shuffle(len(ops), func(i, j int) { ops[i], ops[j] = ops[j], ops[i] })
+	for _, o := range ops {
+		hist = append(hist, o.name)
+		err := o.run()
+		c.Count("kmount_replica_ops", 1)
+		c.Count("ops_judged", 1)
+		if healthViolations(c, R.Node, "replica op "+o.name, detail(nil)) {
+			return
+		}
+		after := c07Snapshot(R.Node, "db")
+		if after != before {
+			c.Violate("C07/kmount/replica-changed", fmt.Sprintf("%q issued by an application on the replica's mount changed the database, position or log: %v -> %v (returned %v)", o.name, before, after, err), detail(nil))
+			return
+		}
+		if o.must && err == nil {
+			c.Violate("C07/kmount/write-accepted", fmt.Sprintf("%q issued by an application on the replica's mount returned success", o.name), detail(nil))
+			return
+		}
+		if err != nil && (strings.Contains(strings.ToLower(err.Error()), "malformed") || strings.Contains(strings.ToLower(err.Error()), "not a database")) {
+			c.Violate("C07/kmount/replica-corrupt", fmt.Sprintf("%q on the replica's mount failed with a corruption error: %v", o.name, err), detail(nil))
+			return
+		}
+		if err != nil {
+			c.Count("kmount_replica_ops_refused", 1)
+			m := strings.ToLower(err.Error())
+			switch {
+			case strings.Contains(m, "readonly") || strings.Contains(m, "read-only") || strings.Contains(m, "permission denied"):
+				c.Count("refused_readonly", 1)
+			default:
+				c.Count("kmount_refused_other", 1)
+				c.Distinct("kmount/c07/other-error/" + o.name[:min(len(o.name), 24)])
+			}
+		}
+	}
+	if rconn != nil {
+		rconn.close()
+	}
+	// the replica still reads the primary's content and still follows it
+	r2, err := proc.open(rdb, true)
+	if err != nil {
+		c.Violate("C07/kmount/replica-open", err.Error(), detail(nil))
+		return
+	}
+	got, err := r2.contentHash()
+	r2.close()
+	if err != nil || got != want {
+		c.Violate("C07/kmount/replica-content", fmt.Sprintf("after the refused operations the replica reads %s (%v), the primary holds %s", got, err, want), detail(nil))
+		return
+	}
+	if err := w.exec("INSERT INTO t0 VALUES(2000,1,randomblob(100))"); err != nil {
+		c.Violate("C07/kmount/primary-write", err.Error(), detail(nil))
+		return
+	}
+	if ok, _, timedOut := cl.WaitConverged(P, R, []string{"db"}, 8, 30*time.Second); !ok && !timedOut {
+		c.Violate("C07/kmount/replica-stopped-following", fmt.Sprintf("after the refused operations the replica stays at %s, the primary is at %s", mon.PosOf(R.Node, "db"), mon.PosOf(P.Node, "db")), detail(nil))
+		return
+	}
+
+	// the primary loses its lease inside a real SQLite transaction
+	how := []string{"expire", "demote"}[c.Rng.IntN(2)]
+	var blocked atomic.Bool
+	cl.Svc.Inject = func(node, op string) error {
+		if blocked.Load() && op == "acquire" {
+			return errors.New("scripted: unavailable")
+		}
+		return nil
+	}
+	pb := c07Snapshot(P.Node, "db")
+	if err := w.exec("BEGIN IMMEDIATE"); err != nil {
+		c.Violate("C07/kmount/primary-write", err.Error(), detail(nil))
+		return
+	}
+	if err := w.exec("INSERT INTO t0 VALUES(3000,1,randomblob(2000))"); err != nil {
+		c.Violate("C07/kmount/primary-write", err.Error(), detail(nil))
+		return
+	}
+	blocked.Store(true)
+	if how == "expire" {
+		cl.Svc.Expire()
+	} else {
+		P.Store.Demote()
+	}
+	for dl := time.Now().Add(15 * time.Second); P.Store.IsPrimary() && time.Now().Before(dl); {
+		time.Sleep(2 * time.Millisecond)
+	}
+	if P.Store.IsPrimary() {
+		c.Inconclusive("node did not lose primary status")
+		return
+	}
+	cerr := w.exec("COMMIT")
+	hist = append(hist, fmt.Sprintf("lease lost (%s) inside a transaction; COMMIT -> %v", how, cerr))
+	pa := c07Snapshot(P.Node, "db")
+	c.Count("demotions_mid_tx", 1)
+	c.Count("ops_judged", 1)
+	exited := len(P.Node.Exits()) > 0
+	if pa.pos != pb.pos || pa.ltx != pb.ltx {
+		c.Violate("C07/kmount/published-after-authority-loss", fmt.Sprintf("the node lost its lease inside a real SQLite transaction (%s mode) yet position/log moved: %s %s -> %s %s", mode, pb.pos, pb.ltx, pa.pos, pa.ltx), detail(nil))
+		return
+	}
+	if cerr == nil && !exited {
+		c.Violate("C07/kmount/commit-succeeded-after-authority-loss", fmt.Sprintf("COMMIT returned success after the node had lost its lease (%s, %s mode) and the node did not stop", how, mode), detail(nil))
+		return
+	}
+	if exited && mode != "wal" {
+		c.Violate("C07/kmount/exit-in-rollback-mode", "Store.Exit was called for a rollback-journal transaction after authority loss", detail(nil))
+		return
+	}
+	c.Count("demotion_then_commit_refused", 1)
+	c.Distinct(fmt.Sprintf("kmount/c07/%s/%s/exit%v", mode, how, exited))
+	if k < 2 {
+		c.Sample(detail(nil))
+	}
+}
+
+// queryStringOrExec runs a statement that may or may not return a row.
+func (s *sqlDB) queryStringOrExec(q string) (string, error) {
+	if strings.HasPrefix(strings.ToUpper(q), "PRAGMA") {
+		v, err := s.queryString(q)
+		if err != nil && strings.Contains(err.Error(), "no rows") {
+			return "", nil
+		}
+		return v, err
+	}
+	return "", s.exec(q)
 }
